@@ -30,7 +30,7 @@ fn single(p_id: u16, rec: RecSem) -> PktM {
     p
 }
 
-fn tuple_case(ctx: &mut Ctx, code: u16, idx: u64) {
+pub fn tuple_case(ctx: &mut Ctx, code: u16, idx: u64) {
     let mut r = ctx.rng("tuple", idx);
     let mut g = Gen::new(&mut r, Cfg { share: 20, max_rest: 70, ..Default::default() });
     let tname = type_name(code);
@@ -94,7 +94,7 @@ fn tuple_case(ctx: &mut Ctx, code: u16, idx: u64) {
 }
 
 /// encodings that break a structural rule: must be rejected
-fn rejection_case(ctx: &mut Ctx, idx: u64) {
+pub fn rejection_case(ctx: &mut Ctx, idx: u64) {
     let mut r = ctx.rng("reject", idx);
     let kind = idx % 9;
     let follow = (idx / 9) % 2 == 1; // another record follows, so an overrun stays inside the message
@@ -282,6 +282,11 @@ fn helper_case(ctx: &mut Ctx, idx: u64) {
 }
 
 pub fn run(ctx: &mut Ctx) {
+    if let Some(tape) = ctx.tape_case() {
+        // replay of a case found by the coverage-guided `model` target: the tape drives every generator decision
+        super::model_case("C10", ctx, &tape);
+        return;
+    }
     let nh = if ctx.slow_tool { 6 } else { ctx.tier.pick(20_000u64, 1_000_000u64) };
     for idx in 0..nh {
         if ctx.take("helpers", idx) {
